@@ -124,14 +124,17 @@ def run_case(case, ctx):
         vrisk = c04.vec_risks(spec) | (set(risk) & {'vec_partial_input_default'})
         if 'several_nodes_per_type' in feats and not (vrisk & c04_open) and 'edge_template' not in feats \
                 and (case.get('family') == 'wide' or rnd.random() < 0.4):
+            # merged variables are located by value fingerprinting: give every node its own initial values / constants
+            spec_v = gen.individualize(spec, random.Random(case['cseed'] + 3), params=rnd.choice(['different', 'equal']))
+            ref_v = RefModel(spec_v)
             try:
-                obs_v = observe.compile_vf(spec, vectorize=True, style=style)
+                obs_v = observe.compile_vf(spec_v, vectorize=True, style=style)
             except Exception as e:
                 import traceback
                 raise observe.Mismatch(f"loud: get_run_func(vectorize=True) raised {type(e).__name__}: {e} :: {traceback.format_exc()[-600:]}")
             m2 = {}
             try:
-                observe.compare_vf(obs_v, ref, rnd, ctx['mp'], n_points=4, vectorized=True, mech=m2)
+                observe.compare_vf(obs_v, ref_v, rnd, ctx['mp'], n_points=4, vectorized=True, mech=m2)
             except observe.Mismatch as e:
                 raise observe.Mismatch(f"default (vectorized) build: {e}")
             mech['derivatives_compared_vectorized'] = mech.get('derivatives_compared_vectorized', 0) + m2.get('derivatives_compared', 0)
